@@ -339,6 +339,16 @@ func condKind(cond ssa.Value) string {
 			}
 			return "value-compare"
 		}
+		// the entry test of a rotated loop (`for i := range n` is lowered to `if 0 < n { do { … } while i+1 < n }`)
+		if k0, isK := x.X.(*ssa.Const); isK && x.Op == token.LSS && k0.Value != nil && k0.Value.String() == "0" {
+			if refs := x.Referrers(); refs != nil {
+				for _, r := range *refs {
+					if iff, ok := r.(*ssa.If); ok && len(iff.Block().Succs) == 2 && isLoopHeader(iff.Block().Succs[0]) {
+						return "loop"
+					}
+				}
+			}
+		}
 		// loop bound: one side is a phi of a loop header (or derived from it by +const)
 		for _, side := range []ssa.Value{x.X, x.Y} {
 			s := side
